@@ -20,6 +20,7 @@ from vf.hyp import drive, st
 from vf.runner import Collector
 
 ID = "C19"
+EARLY_ATTRIBUTION = True  # region predicates are cheap scans of the stored case
 LEVEL = "exploration"
 RULE = ("Hypothesis-parametrised host models (vf/fusionhosts.py, built with onnx.helper only) for each ORT fusion family - RMS norm, "
         "skip RMS/Layer norm, GELU tanh/erf, bias-GELU, rotary embedding (+cos/sin cache, partial), SDPA, MHA (+rotary, +bias, +Attention, "
